@@ -9,6 +9,7 @@ import (
 	"os/exec"
 	"path/filepath"
 	"sort"
+	"strings"
 	"sync"
 	"time"
 
@@ -183,13 +184,19 @@ func soloPass(s *Spec, pool []geojson.Object, opBudget int64, taskOrder []int) (
 						}
 					}()
 					verifsim.OpBoundary(false)
-					verifsim.SetOpBudget(opBudget)
+					verifsim.SetOpBudgets(opBudget, 12*opBudget)
 					verifsim.Yield(SiteOpBoundary)
 					verifsim.OpBoundary(true)
 					x.run(results[t][i], &s.Tasks[t][i], 0)
 					goexit = false
 				}()
 				_ = goexit
+				if verifsim.SoftExceeded() && results[t][i].Status != StAborted {
+					// expensive but it returned: left out of the simulated pass like a
+					// non-terminating call, but nothing was unwound, the process is clean
+					results[t][i].Status = StExpensive
+					abnormal[opKey(&s.Tasks[t][i])] = StExpensive
+				}
 				if st := results[t][i].Status; st == StPanic || st == StAborted {
 					abnormal[opKey(&s.Tasks[t][i])] = st
 					if st == StAborted {
@@ -433,7 +440,7 @@ func runSpec(s *Spec, sched func(soloSteps int64), rl *raceLog) *RunResult {
 	for t := range s.Tasks {
 		skip[t] = make([]bool, len(s.Tasks[t]))
 		for i := range s.Tasks[t] {
-			if st := solo[t][i].Status; st == StPanic || st == StAborted {
+			if st := solo[t][i].Status; st == StPanic || st == StAborted || st == StExpensive {
 				skip[t][i] = true
 				if debugSolo {
 					b, _ := json.Marshal(s.Tasks[t][i])
@@ -447,10 +454,33 @@ func runSpec(s *Spec, sched func(soloSteps int64), rl *raceLog) *RunResult {
 	}
 	st.SoloSteps = soloSteps
 	if soloUnwound {
-		// an operation does not terminate even alone (C05's business) and had to
-		// be unwound: the run ends here, the worker restarts (see soloUnwound)
+		// A call of the reference pass did not terminate and had to be unwound:
+		// the run ends here and the worker restarts (see soloUnwound). One
+		// question is still sound to ask, in a FRESH process: does that call
+		// terminate when it is really alone? If it does not, the input itself
+		// makes it hang (C05's business). If it does, the hang was caused by the
+		// calls made before it - a call that "returns the same value it returns
+		// when run alone" it is not.
 		st.SoloUnwound = true
 		st.Unwound = true
+		for t := range s.Tasks {
+			for i := range s.Tasks[t] {
+				if solo[t][i].Status != StAborted || solo[t][i].End == 0 {
+					continue
+				}
+				status, res := aloneStatusInFreshProcess(s, t, i, auditSites, os.TempDir())
+				if status == StOK || status == StCBPanic || status == StGoexit {
+					op := &s.Tasks[t][i]
+					kind := recvKind(twin, op)
+					rr.Violations = append(rr.Violations, Violation{
+						Class: "abnormal", Key: "abnormal:" + op.M + ":" + kind + ":history-hang",
+						Task: t, OpIndex: i, Method: op.M, Kind: kind,
+						Detail: "the call does not return within the step budget after other calls were made before it on the same process state (sequential reference pass); alone, in a fresh process, it returns",
+						Alone:  fmt.Sprintf("status=%d %s", status, res),
+					})
+				}
+			}
+		}
 		return rr
 	}
 	if sched != nil {
@@ -685,6 +715,23 @@ func auditHistory(s *Spec, rr *RunResult, nsites int, tmpDir string) ([]Violatio
 		}
 	}
 	return vs, nil
+}
+
+// auditSites is the number of yield sites (set by the subcommands).
+var auditSites = 4096
+
+// aloneStatusInFreshProcess is aloneInFreshProcess returning the status too
+// (-1: could not be determined).
+func aloneStatusInFreshProcess(s *Spec, t, i int, nsites int, tmpDir string) (int, string) {
+	out := aloneInFreshProcess(s, t, i, nsites, tmpDir)
+	var st int
+	if n, _ := fmt.Sscanf(out, "status=%d", &st); n != 1 {
+		return -1, out
+	}
+	if k := strings.Index(out, " "); k > 0 {
+		return st, out[k+1:]
+	}
+	return st, ""
 }
 
 // aloneInFreshProcess: the single call, in its own process, on a fresh pool.
